@@ -64,6 +64,23 @@ func flipCase(rng *rand.Rand, s string) string {
 	return string(b)
 }
 
+// oneUpper returns the name in lower case with exactly ONE letter (the k-th, cyclically) in upper case; "" if it has no letter.
+func oneUpper(name string, k int) string {
+	b := []byte(asciiLower(name))
+	var idx []int
+	for i, c := range b {
+		if c >= 'a' && c <= 'z' {
+			idx = append(idx, i)
+		}
+	}
+	if len(idx) == 0 {
+		return ""
+	}
+	i := idx[k%len(idx)]
+	b[i] -= 32
+	return string(b)
+}
+
 // twinsOf returns configurations that differ from c only in ways C15 declares irrelevant.
 func twinsOf(rng *rand.Rand, c *CfgSpec, exhaustivePerms bool) (twins []*CfgSpec, hows []string) {
 	add := func(t *CfgSpec, how string) { twins = append(twins, t); hows = append(hows, how) }
@@ -150,6 +167,26 @@ func twinsOf(rng *rand.Rand, c *CfgSpec, exhaustivePerms bool) (twins []*CfgSpec
 			}
 		}
 		add(t, "response-header case varied")
+	}
+	// ... exactly one letter in upper case, everything else lower (lesson of seeded change C14-l: a lower-casing routine
+	// whose "already lower-case?" pre-scan misses one letter of the alphabet)
+	for k := 0; k < 3; k++ {
+		if len(c.ReqHdrs) > 0 {
+			t := clone()
+			i := rng.IntN(len(t.ReqHdrs))
+			if u := oneUpper(t.ReqHdrs[i].Raw, rng.IntN(64)); u != "" && t.ReqHdrs[i].Kind != hStar {
+				t.ReqHdrs[i].Raw = u
+				add(t, "request header with exactly one upper-case letter: "+u)
+			}
+		}
+		if len(c.RespHdrs) > 0 {
+			t := clone()
+			i := rng.IntN(len(t.RespHdrs))
+			if u := oneUpper(t.RespHdrs[i].Raw, rng.IntN(64)); u != "" && t.RespHdrs[i].Kind != hStar {
+				t.RespHdrs[i].Raw = u
+				add(t, "response header with exactly one upper-case letter: "+u)
+			}
+		}
 	}
 	// spelling of methods that Fetch normalises
 	changed := false
